@@ -47,33 +47,34 @@ func c10AllocBound(n int) uint64 { return uint64(n)*1024 + 8<<20 }
 
 // ---------------------------------------------------------------- the listed finding's domain
 
-// c10TagOverflowDomain mirrors, independently of byteReader, how far ParseRequestHeader gets
-// and reports whether it reaches a header tagged field whose size varint is >= 2^63 (which
-// int(size) turns negative). That is exactly the predicate of the listed finding.
-func c10TagOverflowDomain(b []byte) bool {
+// c10ScanHeader mirrors, independently of byteReader, how far ParseRequestHeader gets.
+// overflow: it reaches a header tagged field whose size varint is >= 2^63 (which int(size)
+// turns negative) - exactly the predicate of the listed finding. ok: the header is
+// accepted and the body starts at bodyStart.
+func c10ScanHeader(b []byte) (overflow bool, bodyStart int, flexible bool, ok bool) {
 	if len(b) < 10 {
-		return false
+		return false, 0, false, false
 	}
 	key := int16(binary.BigEndian.Uint16(b[0:2]))
 	ver := int16(binary.BigEndian.Uint16(b[2:4]))
 	l := int16(binary.BigEndian.Uint16(b[8:10]))
 	pos := 10
 	if l < -1 {
-		return false
+		return false, 0, false, false
 	}
 	if l > 0 {
 		if len(b)-pos < int(l) {
-			return false
+			return false, 0, false, false
 		}
 		pos += int(l)
 	}
 	req := kmsg.RequestForKey(key)
 	if req == nil {
-		return false
+		return false, pos, false, true
 	}
 	req.SetVersion(ver)
 	if !req.IsFlexible() {
-		return false
+		return false, pos, false, true
 	}
 	uv := func() (uint64, bool) {
 		v, n := binary.Uvarint(b[pos:])
@@ -83,30 +84,68 @@ func c10TagOverflowDomain(b []byte) bool {
 		pos += n
 		return v, true
 	}
-	count, ok := uv()
-	if !ok {
-		return false
+	count, good := uv()
+	if !good {
+		return false, 0, true, false
 	}
 	for i := uint64(0); i < count; i++ {
-		if _, ok := uv(); !ok {
-			return false
+		if _, good := uv(); !good {
+			return false, 0, true, false
 		}
-		size, ok := uv()
-		if !ok {
-			return false
+		size, good := uv()
+		if !good {
+			return false, 0, true, false
 		}
 		if size == 0 {
 			continue
 		}
 		if size >= 1<<63 {
-			return true
+			return true, 0, true, false
 		}
 		if uint64(len(b)-pos) < size {
-			return false
+			return false, 0, true, false
 		}
 		pos += int(size)
 	}
-	return false
+	return false, pos, true, true
+}
+
+func c10TagOverflowDomain(b []byte) bool {
+	overflow, _, _, _ := c10ScanHeader(b)
+	return overflow
+}
+
+// c10Defuse bounds the COST of a case, not its outcome class: kmsg reads the tagged-field
+// count of every flexible struct as a uvarint (up to 2^32-1) and loops that many times even
+// after the input is exhausted (about 11 ns per iteration, i.e. up to ~47 s of CPU for an
+// 18-byte request; recorded in notes/C10.md, not asserted because the statement is about
+// crashes). So that a leg cannot stall, the BODY of a flexible request never contains a
+// varint longer than 3 bytes: in every run of bytes with the high bit set the third one
+// gets its high bit cleared. Header bytes (parsed by the repo's own code) are untouched.
+func c10Defuse(b []byte) ([]byte, bool) {
+	_, start, flexible, ok := c10ScanHeader(b)
+	if !ok || !flexible {
+		return b, false
+	}
+	out := b
+	changed := false
+	run := 0
+	for i := start; i < len(b); i++ {
+		if b[i]&0x80 == 0 {
+			run = 0
+			continue
+		}
+		run++
+		if run == 3 {
+			if !changed {
+				out = append([]byte(nil), b...)
+				changed = true
+			}
+			out[i] &= 0x7f
+			run = 0
+		}
+	}
+	return out, changed
 }
 
 // ---------------------------------------------------------------- running the parser
@@ -165,6 +204,19 @@ func c10JudgeParse(b []byte, res c10Result) string {
 			return "body returned by ParseRequestHeader is not a suffix of the payload"
 		}
 	}
+	// a header that is well formed per the protocol (independent scan) of a request the broker
+	// serves must be accepted, and the body must start where the scan says
+	if _, bodyStart, _, ok := c10ScanHeader(b); ok {
+		key, ver := int16(binary.BigEndian.Uint16(b[0:2])), int16(binary.BigEndian.Uint16(b[2:4]))
+		if _, served := vfc10gen.FlexibleFrom[key]; served && ver >= 0 {
+			if res.hdrErr != nil {
+				return fmt.Sprintf("well-formed header of key %d v%d rejected: %v", key, ver, res.hdrErr)
+			}
+			if len(res.hdrBody) != len(b)-bodyStart {
+				return fmt.Sprintf("key %d v%d: body starts at %d per the protocol but ParseRequestHeader returned the last %d of %d bytes", key, ver, bodyStart, len(res.hdrBody), len(b))
+			}
+		}
+	}
 	if res.reqErr == nil {
 		if res.req.Key() != res.reqHdr.APIKey || res.req.GetVersion() != res.reqHdr.APIVersion {
 			return fmt.Sprintf("parsed request is key %d v%d but header says key %d v%d", res.req.Key(), res.req.GetVersion(), res.reqHdr.APIKey, res.reqHdr.APIVersion)
@@ -196,10 +248,22 @@ func c10GenKeyVersion(t *rapid.T) (int16, int16) {
 	if r := kmsg.RequestForKey(key); r != nil {
 		maxV = r.MaxVersion()
 	}
+	firstFlex := maxV + 1
+	if r := kmsg.RequestForKey(key); r != nil {
+		for v := int16(0); v <= maxV; v++ {
+			r.SetVersion(v)
+			if r.IsFlexible() {
+				firstFlex = v
+				break
+			}
+		}
+	}
 	var ver int16
-	switch rapid.IntRange(0, 9).Draw(t, "ver?") {
-	case 0:
+	switch k := rapid.IntRange(0, 9).Draw(t, "ver?"); {
+	case k == 0:
 		ver = rapid.SampledFrom([]int16{-1, math.MinInt16, math.MaxInt16, maxV + 1, maxV + 5}).Draw(t, "ver")
+	case k <= 5 && firstFlex <= maxV:
+		ver = int16(rapid.IntRange(int(firstFlex), int(maxV)).Draw(t, "ver"))
 	default:
 		ver = int16(rapid.IntRange(0, int(maxV)).Draw(t, "ver"))
 	}
@@ -314,6 +378,10 @@ func TestVF_C10_Hostile(t *testing.T) {
 	rapid.Check(t, func(t *rapid.T) {
 		st.Eval()
 		b, h := c10GenHostile(t, st, known)
+		b, defused := c10Defuse(b)
+		if defused {
+			st.Class("cost-bounded(varint<=3B in flexible body)")
+		}
 		if known && c10TagOverflowDomain(b) {
 			st.ExcludedCase(c10FindingTagSize)
 			return
@@ -397,7 +465,11 @@ func TestVF_C10_Mutated(t *testing.T) {
 			b = append([]byte(nil), b...)
 			nm := rapid.IntRange(1, 4).Draw(t, "mutations")
 			for i := 0; i < nm && len(b) > 0; i++ {
-				pos := rapid.IntRange(0, len(b)-1).Draw(t, "pos")
+				lo := 0
+				if _, bs, _, ok := c10ScanHeader(b); ok && bs < len(b) && rapid.IntRange(0, 3).Draw(t, "in-body") != 0 {
+					lo = bs
+				}
+				pos := rapid.IntRange(lo, len(b)-1).Draw(t, "pos")
 				switch rapid.IntRange(0, 5).Draw(t, "mut") {
 				case 0:
 					b[pos] ^= byte(rapid.IntRange(1, 255).Draw(t, "xor"))
@@ -422,6 +494,10 @@ func TestVF_C10_Mutated(t *testing.T) {
 					class += "append,"
 				}
 			}
+		}
+		b, defused := c10Defuse(b)
+		if defused {
+			st.Class("cost-bounded(varint<=3B in flexible body)")
 		}
 		if known && c10TagOverflowDomain(b) {
 			st.ExcludedCase(c10FindingTagSize)
@@ -631,6 +707,7 @@ func TestVF_C10_Witness(t *testing.T) {
 // ---------------------------------------------------------------- native fuzz
 
 func c10FuzzOne(b []byte) string {
+	b, _ = c10Defuse(b)
 	if vfkit.Known(c10FindingTagSize) && c10TagOverflowDomain(b) {
 		return ""
 	}
